@@ -530,3 +530,37 @@ def thermal_expansion_of_a_whole_assembly(nb: int, h0: float, h1: float, hd: flo
         assert eq(blocks[k].p.ztop, fuel[k].ztop) and blocks[k].p.height > 0
         assert eq(fuel[k].p.numberDensities["U235"] * g * g * g, n, 1e-7), "atoms conserved: density x growth^3"
         assert eq(fuel[k].p.numberDensities["U235"] * blocks[k].p.height * g * g, n * hs[k], 1e-7), "target component: density x height x area conserved"
+
+
+# ----------------------------------------------------------------------------- the linkage relation itself (documented contract of areAxiallyLinked)
+HoledHexagon = repo("armi.reactor.components.complexShapes:HoledHexagon")
+areAxiallyLinked = repo("armi.reactor.converters.axialExpansionChanger.assemblyAxialLinkage:areAxiallyLinked")
+
+
+def hexagon(name, solid, ip, op, mult):
+    p = new(PMap, numberDensities={"FE": 0.01}, detailedNDens=None, pinNDens=None, volume=1.0, type=name, serialNum=2, op=op, ip=ip, mult=mult, flags=None)
+    return new(Hexagon, p=p, material=new(Material) if solid else new(Fluid), parent=None, height=0.0, zbottom=0.0, ztop=0.0, name=name, cached={}, inputTemperatureInC=20.0)
+
+
+def holed_hexagon(name, op, holeOD, nHoles, mult):
+    p = new(PMap, numberDensities={"FE": 0.01}, detailedNDens=None, pinNDens=None, volume=1.0, type=name, serialNum=3, op=op, holeOD=holeOD, nHoles=nHoles, mult=mult, flags=None)
+    return new(HoledHexagon, p=p, material=new(Material), parent=None, height=0.0, zbottom=0.0, ztop=0.0, name=name, cached={}, inputTemperatureInC=20.0)
+
+
+@lemma(gen={"op0": (5.0, 20.0), "op1": (5.0, 20.0), "ip0": (0.0, 4.0), "hole": (0.1, 1.0), "od": (0.1, 4.0), "m": [1.0, 1.0, 7.0]})
+def components_are_linked_mutually_and_only_to_their_own_shape(op0: float, ip0: float, op1: float, hole: float, od: float, m: float):
+    """areAxiallyLinked on real Hexagon / HoledHexagon (a subclass of Hexagon) / Circle components that all overlap radially
+    and have the same multiplicity: the relation is SYMMETRIC (a one-way link would stack a component on a neighbour that
+    does not carry it - 'components linked axially stay stacked bottom-on-top' needs both ends to agree) and holds only
+    between components of the identical shape class (documented contract: 'They have identical types')."""
+    assume(0 <= ip0 and ip0 < op0 and 0 < op1 and 0 < hole and hole < op1 and 0 < od and m >= 1)
+    h = hexagon("duct", True, ip0, op0, m)
+    hh = holed_hexagon("reflector", op1, hole, 1, m)
+    c = circle("slug", True, 0.0, od, m)
+    h2 = hexagon("duct", True, 0.0, op1, m)
+    for a, b in ((h, hh), (h, c), (hh, c), (h, h2)):
+        assert areAxiallyLinked(a, b) == areAxiallyLinked(b, a), "linkage is mutual"
+    assert not areAxiallyLinked(hh, h) and not areAxiallyLinked(h, hh), "a holed hexagon is not the same shape as a hexagon"
+    assert not areAxiallyLinked(h, c) and not areAxiallyLinked(hh, c)
+    assert areAxiallyLinked(h, h2) == (ip0 < op1), "identical shapes: linked iff they overlap (larger inner < smaller outer bounding diameter)"
+    assert not areAxiallyLinked(h, hexagon("duct", False, 0.0, op1, m)), "fluids are never linked"
